@@ -103,6 +103,30 @@ def runner(rep, tier, seed, replay):
     for c in rnd.sample(hist, min(len(hist), 300 if tier == "quick" else 3000)):
         jobs.append({"entry": "c", "text": restated(c), "env": {}, "timeout": 4, "want_files": False})
         meta.append((c, "dq", restated(c)))
+    # pairs: two words of the model under the same environment in one command (each word keeps its own value)
+    byenv = {}
+    for c in cases:
+        byenv.setdefault(json.dumps(c["env"], sort_keys=True), []).append(c)
+    pairs = []
+    groups = [g for g in byenv.values() if len(g) >= 2]
+    for _ in range(200 if tier == "quick" else 3000):
+        if not groups:
+            break
+        g = rnd.choice(groups)
+        c1, c2 = rnd.sample(g, 2)
+        pairs.append((c1, c2, 'vmk 0 3 ; vpa "%s" \'lit $A\' "%s"' % (c1["word"], c2["word"])))
+    pres = run_cases([{"entry": "c", "text": ln, "env": c1["env"], "timeout": 6, "want_files": False} for c1, c2, ln in pairs])
+    for (c1, c2, ln), res in zip(pairs, pres):
+        rep.cov["evaluations"] += 1
+        pa = [r for r in res.get("log", []) if r.get("h") == "pa"]
+        ok = False
+        if len(pa) == 1:
+            ppid = pa[0].get("ppid")
+            want = [c1["expected"].replace("S", "3").replace("P", str(ppid)), "lit $A", c2["expected"].replace("S", "3").replace("P", str(ppid))]
+            ok = pa[0].get("argv") == want
+        if res.get("timed_out") or not ok:
+            rep.violation("pair/dq", "`%s` with %s: argv %s" % (ln, c1["env"], [r.get("argv") for r in pa]),
+                          {"case": c1, "form": "dq", "text": ln, "env": c1["env"]}, dict(c1["feat"], form="pair"))
     # ... and after `unset` a reference is empty, also when the name had both a shell-local and an exported value
     unset_cases = []
     for c in rnd.sample(hist, min(len(hist), 60 if tier == "quick" else 600)):
